@@ -5,7 +5,7 @@ import corpus
 
 PROP_FILES = ["props/C07.v"]
 TRANSLATORS = ["tr_lexer.py", "tr_parser_tables.py", "tr_generator_tables.py", "tr_ast.py"]
-TRUSTED = ["CGenerator is hand-modelled (coq/model/Generator.v: every visit_* method, _generate_stmt/_decl/_type, indentation state) and tied text-exactly by correspondence; the round trip for all programs is decided by the direct oracle on the implementation, the theorems cover coordinate-independence (all ASTs), the mirrored precedence tables and kernel-computed round trips on the model"]
+TRUSTED = ["the statements of the round-trip theorems are tied to the code directly as well: random members of their language (FuncTrip.edecl) are evaluated by the kernel (utext, unit_toks, unit_emb) and CParser / CLexer / CGenerator must produce exactly that tree, those tokens and that text (harness/langcorr.py)", "CGenerator is hand-modelled (coq/model/Generator.v: every visit_* method, _generate_stmt/_decl/_type, indentation state) and tied text-exactly by correspondence; the round trip for all programs is decided by the direct oracle on the implementation, the theorems cover coordinate-independence (all ASTs), the mirrored precedence tables and kernel-computed round trips on the model"]
 ASSUMPTIONS = []
 
 
@@ -66,6 +66,9 @@ def run(ctx, b, broken):
     gen_bad = []
     ctx.notes["rule"] = "accepted programs (generator programs, the repository corpus after cpp, accepted token mutants) x both generator configurations; non-trivial = program with >= 1 nested expression and >= 1 non-trivial declarator; distinct by text"
     replay_known(ctx, roundtrip)
+    # the language of the round-trip theorems against the implementation (text, tokens, tree; both configurations)
+    import langcorr
+    langcorr.run(ctx, 40 if ctx.tier == "quick" else 400, broken, "C07")
     # user subclasses of CGenerator that override visit_* methods run first, on a program that has every kind of node:
     # what the plain CGenerator prints afterwards (all the round trips below) must not depend on that
     from pycparser import c_generator as _cg, c_ast as _ca
